@@ -340,6 +340,13 @@ impl Ctx {
 
     pub fn violate(&mut self, monitor: &str, ev: &Ev, key: &str, msg: String) {
         self.violations_total += 1;
+        let msg = if msg.chars().count() > 900 {
+            let mut m: String = msg.chars().take(900).collect();
+            m.push_str("...");
+            m
+        } else {
+            msg
+        };
         let sig = format!("{}|{}|{}|{}|{}", monitor, ev.ty, ev.op, ev.n, key);
         if let Some(v) = self.violations.get_mut(&sig) {
             v.count += 1;
